@@ -592,3 +592,36 @@ def read_through(fn_node, simple_calls=("abs", "min", "max", "float", "int", "le
         fn = t.visit(fn)
         ast.fix_missing_locations(fn)
     return fn
+
+
+def member_forwarding(cls, method):
+    """calls `<m>.<callee>(..)` inside `for m in self._fits` loops of `cls.method`: [(callee, first argument text, skip-test texts)]"""
+    f = cls.methods.get(method)
+    out = []
+    if f is None:
+        return f, out
+    for lp in ast.walk(f.node):
+        if isinstance(lp, ast.For) and isinstance(lp.target, ast.Name) and " ".join(ast.unparse(lp.iter).split()) in ("self._fits", "self.fits"):
+            m = lp.target.id
+            for c in ast.walk(lp):
+                if isinstance(c, ast.Call) and isinstance(c.func, ast.Attribute) and isinstance(c.func.value, ast.Name) and c.func.value.id == m:
+                    arg0 = " ".join(ast.unparse(c.args[0]).split()) if c.args else (" ".join(ast.unparse(c.keywords[0].value).split()) if c.keywords else "")
+                    out.append((c.func.attr, arg0))
+    return f, out
+
+
+def undo_pairs_forwarded(R, rule, p, pairs=(("fix_parameter", "release_parameter"),)):
+    """MultiFit: an operation that is forwarded to the members that depend on the parameter is undone on the same members"""
+    mf = p.find_class("MultiFit")
+    for do, undo in pairs:
+        fd, fwd_do = member_forwarding(mf, do)
+        fu, fwd_undo = member_forwarding(mf, undo)
+        if fd is None or fu is None:
+            raise AnalysisError("MultiFit.%s / %s not found" % (do, undo))
+        if not any(c == do for c, _ in fwd_do):
+            continue   # (not forwarded at all: nothing to undo on the members)
+        pname = fu.node.args.args[1].arg if len(fu.node.args.args) > 1 else None
+        ok = any(c == undo and a == pname for c, a in fwd_undo)
+        R.ob(rule, "MultiFit.%s:members" % undo, ok, (fu.file, fu.lineno),
+             "MultiFit.%s forwards to the members that depend on the parameter (their fitters record it), MultiFit.%s does not call %s on them: after fix, release and a new fit "
+             "the members still list the parameter as fixed - their error bands drop its row and column of the covariance, their ndf is off by one" % (do, undo, undo))
